@@ -6,20 +6,23 @@
 // intentions into them (as service-intentions config entries through ConfigEntry
 // Normalize/Validate/EnsureConfigEntry, through Store.IntentionMutation, or as legacy table rows
 // through Store.LegacyIntentionSet), and then asks the store
-//   match s|d <name>    Store.IntentionMatch
-//   list                Store.Intentions
-//   check  s d def ap   Store.IntentionMatchOne(source) + Store.IntentionDecision(destination)   (Intention.Check)
-//   authz p s d def ap  Store.IntentionMatchOne(destination) + Store.IntentionDecision(source)   (agent authorize)
+//
+//	match s|d <name>    Store.IntentionMatch
+//	list                Store.Intentions
+//	check  s d def ap   Store.IntentionMatchOne(source) + Store.IntentionDecision(destination)   (Intention.Check)
+//	authz p s d def ap  Store.IntentionMatchOne(destination) + Store.IntentionDecision(source)   (agent authorize)
+//
 // printing one canonical line per operation for the Lean model (CV.Ixn) to reproduce.
 //
 // Monitors (independent of the Lean model):
-//   decision:*   every decision equals an independent "most specific intention wins" function
-//                evaluated on the set of intentions the store itself lists
-//   order:*      the answer to every query is identical for every order of writing the same set
-//   repr:*       the legacy table and the config entries give the same answers for the same set
-//   match:*      match / list results are complete, contain only matching intentions, are sorted
-//                by (destination exact, source exact) and carry the 9/8/6/5 precedence
-//   path:*       the two decision pipelines agree for local callers
+//
+//	decision:*   every decision equals an independent "most specific intention wins" function
+//	             evaluated on the set of intentions the store itself lists
+//	order:*      the answer to every query is identical for every order of writing the same set
+//	repr:*       the legacy table and the config entries give the same answers for the same set
+//	match:*      match / list results are complete, contain only matching intentions, are sorted
+//	             by (destination exact, source exact) and carry the 9/8/6/5 precedence
+//	path:*       the two decision pipelines agree for local callers
 package main
 
 import (
@@ -896,8 +899,8 @@ func historyCase(run *hx.Run, r *hx.RNG) {
 	run.Sample(map[string]any{"kind": "history", "ops": t.ops[:min(len(t.ops), 12)]})
 }
 
-// exhaustive: every key set of size <= 3 over names {a, b, *} and peers {"", p}, every write order.
-func exhaustive(run *hx.Run, r *hx.RNG) {
+// exhaustive: every key set of size <= maxSize over names {a, b, *} and peers {"", p}, every write order.
+func exhaustive(run *hx.Run, r *hx.RNG, maxSize int) {
 	ends := []string{"a", "b", "*"}
 	var keys []ixn
 	for _, p := range []string{"", "p"} {
@@ -922,7 +925,7 @@ func exhaustive(run *hx.Run, r *hx.RNG) {
 			permCase(run, r, set, []string{"a", "b"}, []string{"ent"}, 6, "exhaustive")
 			n++
 		}
-		if len(cur) == 3 {
+		if len(cur) == maxSize {
 			return
 		}
 		for k := start; k < len(keys); k++ {
@@ -930,7 +933,7 @@ func exhaustive(run *hx.Run, r *hx.RNG) {
 		}
 	}
 	rec(0, nil)
-	run.Extra["exhaustive"] = map[string]any{"scope": "all key sets of size<=3 over src,dst in {a,b,*} x peer in {local,p}; all write orders; actions drawn per set", "sets": n, "exhaustive": true}
+	run.Extra["exhaustive"] = map[string]any{"scope": fmt.Sprintf("all key sets of size<=%d over src,dst in {a,b,*} x peer in {local,p}; all write orders; actions drawn per set", maxSize), "sets": n, "exhaustive": true}
 }
 
 // byNameProbe replays a fixed witness on every run: Store.IntentionMutation identifies the source of an
@@ -964,15 +967,6 @@ func byNameProbe(run *hx.Run) {
 	run.Case("by-name-probe", true)
 }
 
-func localL4(set []ixn) bool {
-	for _, x := range set {
-		if x.peer != "" || x.perms > 0 {
-			return false
-		}
-	}
-	return true
-}
-
 func main() {
 	run := hx.Start()
 	run.Rule = "one case = one set of intentions with distinct (peer, source, destination) written in several orders and representations into real state stores (or one random edit history), each store asked every match / list / decision query over the case's names; distinct by the set (or history); non-trivial = at least one decision is made by a stored intention rather than the default policy"
@@ -997,9 +991,6 @@ func main() {
 			historyCase(run, r)
 		}
 	}
-	if run.Thorough() && run.Seed == 1 {
-		exhaustive(run, run.RNG.Fork(1<<40))
-	}
-	_ = localL4
+	exhaustive(run, run.RNG.Fork(1<<40), run.Scale(2, 3))
 	run.Finish()
 }
